@@ -516,3 +516,66 @@ def r_consttime(P, chk):
         if bad:
             chk.violation(rid, "consttime:%s" % name, bad[0].where(bad[1]), "append primitive %s reaches a loop in %s: appending k "
                           "items is no longer O(k)" % (name, bad[0].name))
+
+
+def r_counter(P, chk):
+    """The large-stack shortcut of the pair matcher (`opener_count[type]` tells whether any opener of a type is on
+    the stack) is exact only if every push increments and every removal from the stack decrements the counter.
+    A stale counter makes every unmatched closer rescan the whole opener stack (quadratic on the published
+    pathological patterns) - a necessary condition of the linear-cost clause, checked structurally."""
+    rid = "R-COUNTER"
+    chk.rule(rid, "token_pairs_match_pairs_inside_token: the per-type opener counter is adjusted with every push and every "
+                  "removal from the shared stack while it is still consulted")
+    f = P.func("token_pairs_match_pairs_inside_token", "token_pairs.c")
+    counters = {}
+    for x in f.walk():
+        if x["k"] == "UnaryOperator" and x["op"] in ("post++", "pre++", "post--", "pre--"):
+            l = strip(x["c"][0])
+            if l is not None and l["k"] == "ArraySubscriptExpr":
+                b = strip(l["c"][0])
+                if b is not None and b["k"] == "DeclRefExpr" and b.get("dk") == "Var":
+                    counters.setdefault(b["n"], {"inc": [], "dec": []})["inc" if "++" in x["op"] else "dec"].append(x)
+    if not counters:
+        raise AnalysisBroken("pair matcher: no per-type counter array found (shortcut rewritten?)")
+    cname = sorted(counters, key=lambda k: -len(counters[k]["inc"]))[0]
+    C = counters[cname]
+    pushes = list(f.calls("stack_push"))
+    pops = list(f.calls("stack_pop"))
+    if not pushes:
+        raise AnalysisBroken("pair matcher: no stack_push")
+    stack = key(pushes[0]["c"][1])
+    pos = f.cfg.positions()
+    blk = lambda n: pos.get(n["i"], (None,))[0]
+    for p in pushes:
+        ok = any(blk(i) == blk(p) for i in C["inc"])
+        chk.obligation(rid, "%s: stack_push is paired with %s[type]++" % (f.where(p), cname), ok)
+        if not ok:
+            chk.violation(rid, "counter:push", f.where(p), "an opener is pushed without incrementing %s[]" % cname)
+    for p in pops:
+        ok = any(blk(d) == blk(p) for d in C["dec"])
+        chk.obligation(rid, "%s: stack_pop is paired with %s[type]--" % (f.where(p), cname), ok)
+        if not ok:
+            chk.violation(rid, "counter:pop", f.where(p), "an opener is popped without decrementing %s[]" % cname)
+    # direct truncation of the stack is only allowed where the counter is no longer read
+    reads = [x for x in f.walk() if x["k"] == "ArraySubscriptExpr" and key(x["c"][0]) == cname]
+    read_blocks = {blk(r) for r in reads if blk(r) is not None}
+    n_tr = 0
+    for x in f.walk():
+        if x["k"] == "BinaryOperator" and x["op"] == "=" and key(x["c"][0]) == stack + "->size":
+            n_tr += 1
+            b0 = blk(x)
+            reach = f.cfg.reachable(b0) - {b0} if b0 is not None else set()
+            # the block itself counts if a read follows the store inside it
+            later_same = any(blk(r) == b0 and pos[r["i"]][1] > pos[x["i"]][1] for r in reads if r["i"] in pos)
+            bad = bool(reach & read_blocks) or later_same
+            chk.obligation(rid, "%s: `%s->size = %s` truncates the stack only after the counter's last use" % (
+                f.where(x), stack, key(x["c"][1])), not bad)
+            if bad:
+                chk.violation(rid, "counter:truncate", f.where(x), "the opener stack is truncated with `%s->size = %s` while %s[] is "
+                              "still consulted afterwards: the counts go stale, the large-stack shortcut never fires again and every "
+                              "unmatched closer rescans the whole stack" % (stack, f.src(x["c"][1]), cname))
+    if not (C["dec"] or n_tr):
+        raise AnalysisBroken("pair matcher: the stack is never shrunk?")
+    # the shortcut itself still exists: a read of the counter guarded by the large-stack threshold
+    ok = bool(reads)
+    chk.obligation(rid, "the shortcut reads %s[] (%d reads)" % (cname, len(reads)), ok)
